@@ -733,3 +733,191 @@ Proof. vm_compute. repeat split; reflexivity. Qed.
 
 End Cqm.
 Export Cqm.
+
+(* ---------- 9. the native state of cyDiscreteQuadraticModel (Model/DqmNative.v) ----------
+   adj_ (per variable the sorted vector of neighbouring variables), case_starts_ and the case-level BQM under the calls
+   reachable from Python; the worker's py_dqm stream compares all three after every call (Model/ChkC20Dqm.v). *)
+From Dimod Require Model.DqmNative Proofs.DqmNativeFacts Proofs.DqmRoundTrip Proofs.DqmReads Proofs.DqmReadBack.
+Module Dqm.
+Import Dimod.Model.DqmNative Dimod.Proofs.DqmNativeFacts.
+Local Open Scope nat_scope.
+
+(* std::lower_bound + `== end or *low != x` is membership, insert at the lower bound keeps the vector strictly sorted *)
+Theorem C20_dqm_lower_bound_is_membership :
+  forall x l, sorted_nat l = true -> (lb_has x l = true <-> In x l).
+Proof. exact lb_has_In. Qed.
+Print Assumptions C20_dqm_lower_bound_is_membership.
+
+Theorem C20_dqm_insert_at_lower_bound_sorted :
+  forall x l, sorted_nat l = true -> lb_has x l = false -> sorted_nat (lb_ins x l) = true.
+Proof. exact lb_ins_sorted. Qed.
+Print Assumptions C20_dqm_insert_at_lower_bound_sorted.
+
+Theorem C20_dqm_insert_at_lower_bound_members :
+  forall x y l, In y (lb_ins x l) <-> y = x \/ In y l.
+Proof. exact In_lb_ins. Qed.
+Print Assumptions C20_dqm_insert_at_lower_bound_members.
+
+(* what the executable adjacency check says: every row strictly sorted, in bounds, self-free, symmetric *)
+Theorem C20_dqm_adj_wf_meaning :
+  forall a, adj_wf_b a = true <->
+    forall u, u < length a ->
+      sorted_nat (nth u a []) = true /\
+      forall v, In v (nth u a []) -> v < length a /\ v <> u /\ In u (nth v a []).
+Proof. exact adj_wf_b_iff. Qed.
+Print Assumptions C20_dqm_adj_wf_meaning.
+
+(* "track in adjacency" of set_quadratic / set_quadratic_case, for either argument order *)
+Theorem C20_dqm_track_keeps_adjacency :
+  forall u v a, AdjWf a -> u < length a -> v < length a -> u <> v -> AdjWf (track u v a).
+Proof. exact track_wf. Qed.
+Print Assumptions C20_dqm_track_keeps_adjacency.
+
+Theorem C20_dqm_track_exact :
+  forall u v a w x, AdjWf a -> u < length a -> v < length a -> u <> v ->
+    (In x (nth w (track u v a) []) <-> In x (nth w a []) \/ (w = u /\ x = v) \/ (w = v /\ x = u)).
+Proof. exact track_frame. Qed.
+Print Assumptions C20_dqm_track_exact.
+
+(* inserting the neighbour at lower_bound(v) instead of lower_bound(u) - the slip this stream was added for - breaks it *)
+Theorem C20_dqm_track_wrong_bound_breaks :
+  adj_wf_b (track_bad 2 0 (track_bad 0 1 [[];[];[]])) = false
+  /\ track_bad 2 0 (track_bad 0 1 [[];[];[]]) = [[2;1];[0];[0]]
+  /\ adj_wf_b (track 2 0 (track 0 1 [[];[];[]])) = true.
+Proof. exact track_wrong_bound_breaks. Qed.
+Print Assumptions C20_dqm_track_wrong_bound_breaks.
+
+(* the whole invariant, readable *)
+Theorem C20_dqm_invariant_meaning :
+  forall d, DInv d <->
+    Inv (d_b d) /\
+    forallb (vartype_eqb BINARY) (vts (d_b d)) = true /\
+    length (d_st d) = S (d_nvars d) /\
+    hd 1 (d_st d) = 0 /\
+    starts_ok (d_st d) = true /\
+    last (d_st d) 0 = nvars (d_b d) /\
+    AdjWf (d_adj d) /\
+    (forall ci w, ci < nvars (d_b d) -> In w (map fst (nb (d_b d) ci)) ->
+       var_of d ci <> var_of d w /\ lb_has (var_of d w) (d_nb d (var_of d ci)) = true).
+Proof. exact DInv_iff. Qed.
+Print Assumptions C20_dqm_invariant_meaning.
+
+(* the "finally fix the adjacency" merge loop of add_linear_equality_constraint *)
+Theorem C20_dqm_fix_walk_is_sorted_union :
+  forall v vars adj x, sorted_nat vars = true -> sorted_nat adj = true ->
+    (In x (fix_walk (S (length vars + length adj)) v vars adj) <-> In x adj \/ (In x vars /\ x <> v)).
+Proof. exact fix_walk_union. Qed.
+Print Assumptions C20_dqm_fix_walk_is_sorted_union.
+
+Theorem C20_dqm_fix_adjacency_keeps_adjacency :
+  forall vars a, AdjWf a -> sorted_nat vars = true -> (forall x, In x vars -> x < length a) -> AdjWf (fix_adjacency vars a).
+Proof. exact fix_adjacency_wf. Qed.
+Print Assumptions C20_dqm_fix_adjacency_keeps_adjacency.
+
+(* every call except the to_numpy_vectors/from_numpy_vectors rebuild preserves the invariant (add_variable, set_linear,
+   set_linear_case, set_quadratic_case, set_quadratic with a mapping or a dense array, add_linear_equality_constraint,
+   the offset setter, copy), hence every state reachable by such calls has it *)
+Theorem C20_dqm_step_preserves_invariant :
+  forall d o, no_round_trip o = true -> DInv d -> dop_ok d o = true -> DInv (dstep d o).
+Proof. exact dstep_preserves_DInv_all_but_round_trip. Qed.
+Print Assumptions C20_dqm_step_preserves_invariant.
+
+Theorem C20_dqm_invariant_reachable :
+  forall ops d, DqmNativeFacts.run d_empty ops = Some d -> DInv d.
+Proof. exact DInv_reachable. Qed.
+Print Assumptions C20_dqm_invariant_reachable.
+
+(* the to_numpy_vectors -> _from_numpy_vectors rebuild: the COO dump, add_quadratic_from_coo on an empty BQM, the rebuild
+   of adj_ from the case neighbourhoods; the rebuilt BQM is well formed, has the same size and no interaction the
+   original did not have, and the whole invariant holds again *)
+Theorem C20_dqm_round_trip_bqm :
+  forall d, DInv d ->
+    (Inv (d_b (round_trip d)) /\ forallb (vartype_eqb BINARY) (vts (d_b (round_trip d))) = true
+     /\ (forall ci w, In w (map fst (nb (d_b (round_trip d)) ci)) -> In w (map fst (nb (d_b d) ci))))
+    /\ nvars (d_b (round_trip d)) = nvars (d_b d).
+Proof. exact DqmRoundTrip.round_trip_bqm_ok. Qed.
+Print Assumptions C20_dqm_round_trip_bqm.
+
+Theorem C20_dqm_round_trip_preserves_invariant : forall d, DInv d -> DInv (round_trip d).
+Proof. exact DqmRoundTrip.round_trip_preserves_DInv. Qed.
+Print Assumptions C20_dqm_round_trip_preserves_invariant.
+
+(* after the rebuild adj_ is exactly the projection of the case interactions *)
+Theorem C20_dqm_round_trip_adjacency_exact :
+  forall d u v, u < d_nvars d ->
+    (In v (d_nb (round_trip d) u) <->
+     exists ci w, d_start d u <= ci /\ ci < d_start d u + d_ncases d u
+                  /\ In w (map fst (nb (d_b (round_trip d)) ci)) /\ v = var_of d w).
+Proof. exact DqmRoundTrip.round_trip_adj_exact. Qed.
+Print Assumptions C20_dqm_round_trip_adjacency_exact.
+
+(* hence EVERY modelled call preserves the invariant, and every state reachable by calls within their preconditions has it *)
+Theorem C20_dqm_every_step_preserves_invariant :
+  forall d o, DInv d -> dop_ok d o = true -> DInv (dstep d o).
+Proof. exact DqmRoundTrip.dstep_preserves_DInv_all. Qed.
+Print Assumptions C20_dqm_every_step_preserves_invariant.
+
+Theorem C20_dqm_invariant_reachable_unconditional :
+  forall ops d, DqmRoundTrip.run_all d_empty ops = Some d -> DInv d.
+Proof. exact DqmRoundTrip.DInv_reachable_all. Qed.
+Print Assumptions C20_dqm_invariant_reachable_unconditional.
+
+(* reads that binary-search adj_ or walk it *)
+Theorem C20_dqm_get_quadratic_finds_recorded_pairs :
+  forall d u v, DInv d -> u < d_nvars d -> (get_quadratic d u v = None <-> ~ In v (d_nb d u)).
+Proof. exact DqmReads.get_quadratic_none_iff. Qed.
+Print Assumptions C20_dqm_get_quadratic_finds_recorded_pairs.
+
+Theorem C20_dqm_get_quadratic_presence_symmetric :
+  forall d u v, DInv d -> u < d_nvars d -> v < d_nvars d -> (get_quadratic d u v = None <-> get_quadratic d v u = None).
+Proof. exact DqmReads.get_quadratic_presence_symmetric. Qed.
+Print Assumptions C20_dqm_get_quadratic_presence_symmetric.
+
+Theorem C20_dqm_get_quadratic_lists_stored :
+  forall d u v l cu cv x,
+    DInv d -> u < d_nvars d -> v < d_nvars d -> cu < d_ncases d u -> cv < d_ncases d v ->
+    get_quadratic d u v = Some l ->
+    (In (cu, cv, x) l <-> nb_get (cs d v cv) (nb (d_b d) (cs d u cu)) = Some x).
+Proof. exact DqmReads.get_quadratic_lists_stored. Qed.
+Print Assumptions C20_dqm_get_quadratic_lists_stored.
+
+(* energies: the `if v > u: break` walk over adj_[u] visits exactly the recorded neighbours below u, each pair once *)
+Theorem C20_dqm_energy_walk_is_lower_triangle :
+  forall d s, DInv d ->
+    d_energy d s =
+    (off (d_b d)
+     + qsum (map (fun u => linear (d_b d) (cs d u (nth u s 0%nat))
+                           + qsum (map (fun v => quadratic (d_b d) (cs d u (nth u s 0%nat)) (cs d v (nth v s 0%nat)))
+                                       (filter (fun v => (v <? u)%nat) (d_nb d u))))
+                 (seq 0 (d_nvars d))))%Qc.
+Proof. exact DqmReads.d_energy_is_sum. Qed.
+Print Assumptions C20_dqm_energy_walk_is_lower_triangle.
+
+(* what set_quadratic_case writes is what get_quadratic reads, from either side, whatever the argument order *)
+Theorem C20_dqm_set_quadratic_case_read_back :
+  forall d u cu v cv b, DInv d -> dop_ok d (DSetQuadCase u cu v cv b) = true ->
+    let d' := dstep d (DSetQuadCase u cu v cv b) in
+    (exists l, get_quadratic d' u v = Some l /\ In (cu, cv, b) l)
+    /\ (exists l, get_quadratic d' v u = Some l /\ In (cv, cu, b) l).
+Proof. exact DqmReadBack.set_quadratic_case_read_back. Qed.
+Print Assumptions C20_dqm_set_quadratic_case_read_back.
+
+End Dqm.
+Export Dqm.
+
+(* ---------- 10. the DQM model's code-shaped parts are the ones GENERATED from cydiscrete_quadratic_model.pyx ----------
+   translators/dqm_native_shapes.py reads, fail-closed, the "track in adjacency" blocks of set_quadratic and
+   set_quadratic_case (searched vector, search key, compared value, inserted value and position), the early break of
+   energies, the per-case cursor reset of the adjacency rebuild and the five-branch merge loop. *)
+From Dimod Require Gen.Gen_DqmNative Proofs.GenDqmTie.
+
+Theorem C20_dqm_track_generated :
+  (forall u v a, Gen_DqmNative.gen_track_set_quadratic u v a = DqmNative.track u v a)
+  /\ (forall u v a, Gen_DqmNative.gen_track_set_quadratic_case u v a = DqmNative.track u v a).
+Proof. exact (conj GenDqmTie.gen_track_set_quadratic_ok GenDqmTie.gen_track_set_quadratic_case_ok). Qed.
+Print Assumptions C20_dqm_track_generated.
+
+Theorem C20_dqm_energy_break_generated :
+  forall u l, DqmNative.below_or_eq u l = GenDqmTie.take_until (Gen_DqmNative.gen_energy_break u) l.
+Proof. exact GenDqmTie.gen_energy_break_ok. Qed.
+Print Assumptions C20_dqm_energy_break_generated.
